@@ -25,10 +25,10 @@ func init() {
 		ID:    "C18",
 		Level: "exploration",
 		Rule: "cases 0-255 enumerate every byte string of length <=2 (65,793 strings: complete) through all decoders; the other cases are seeded batches of 400 values each (2^k+-d for all k and d<=3, every bit-length class, extremes, random u64 also read as int64 and as float64 bit patterns incl. NaN/Inf/subnormals/negatives, integer-valued floats below 2^53) " +
-			"and 400 random byte strings up to 12 bytes biased to continuation bytes, each also followed by arbitrary trailing bytes. Oracle = independent reference codec written from the documentation: identical bytes, exact round trip ((v+1)-1 for varfloat), 1<=len<=9 == size function, framing, io.EOF on every strict prefix with the slice untouched, int32 range check, no panic, <=9 bytes consumed. " +
+			"and 400 random byte strings up to 12 bytes biased to continuation bytes, each also followed by arbitrary trailing bytes. The first case a worker process runs starts with a probe of one function family (size functions or codecs, in rotating order) before anything else of the package has run in that process. Oracle = independent reference codec written from the documentation: identical bytes, exact round trip ((v+1)-1 for varfloat), 1<=len<=9 == size function, framing, io.EOF on every strict prefix with the slice untouched, int32 range check, no panic, <=9 bytes consumed. " +
 			"Non-trivial = batch containing a 9-byte encoding and a length-class boundary value; distinct = hash of the batch's values.",
 		Cases:     core.Scale(256+10000, 256+250000),
-		Mandatory: []string{"oracle.roundtrips", "oracle.prefix_eof", "oracle.hostile_strings", "exhaustive.strings_len_le2", "encoding.len9", "oracle.varint32_rejects"},
+		Mandatory: []string{"oracle.roundtrips", "oracle.prefix_eof", "oracle.hostile_strings", "exhaustive.strings_len_le2", "encoding.len9", "oracle.varint32_rejects", "oracle.fresh_process_probes"},
 		Assumptions: []string{
 			"the reference codec in /verif/harness/internal/wire is itself correct with respect to the format documentation",
 		},
@@ -295,8 +295,90 @@ func roundTripIntFloat(c *core.Ctx, f float64) {
 	}
 }
 
+// c18ProcessStarted tells whether this process has already run a C18 case: the first one starts with a probe of
+// one function family on a process in which no codec function has run yet (every worker is a fresh process, and
+// so is a replay), so that nothing depends on which function happens to be called first.
+var c18ProcessStarted bool
+
+func freshProcessProbe(c *core.Ctx) {
+	vals := []float64{0, 1, -1, 2, 3, 0.5, 1.5, 1e-9, 123456.789, 1 << 30, 1<<53 - 1, math.MaxFloat64, 5e-324, math.Inf(1), -0.25}
+	ints := []int64{0, 1, -1, 63, 64, -64, -65, 1 << 20, -(1 << 40), math.MaxInt64, math.MinInt64}
+	sizesF := func() {
+		for _, f := range vals {
+			if n, want := enc.Varfloat64Size(f), len(wire.AppendVarfloat(nil, f)); n != want {
+				c.Failf("fresh_process.Varfloat64Size", "Varfloat64Size(%v)=%d as one of the first calls of a process, the encoding has %d bytes", f, n, want)
+				return
+			}
+		}
+	}
+	sizesI := func() {
+		for _, v := range ints {
+			if n, want := enc.Varint64Size(v), len(wire.AppendVarint(nil, v)); n != want {
+				c.Failf("fresh_process.Varint64Size", "Varint64Size(%d)=%d as one of the first calls of a process, the encoding has %d bytes", v, n, want)
+				return
+			}
+		}
+	}
+	sizesU := func() {
+		for _, v := range ints {
+			if n, want := enc.Uvarint64Size(uint64(v)), len(wire.AppendUvarint(nil, uint64(v))); n != want {
+				c.Failf("fresh_process.Uvarint64Size", "Uvarint64Size(%d)=%d as one of the first calls of a process, the encoding has %d bytes", uint64(v), n, want)
+				return
+			}
+		}
+	}
+	codecF := func() {
+		for _, f := range vals {
+			var b []byte
+			enc.EncodeVarfloat64(&b, f)
+			if !bytes.Equal(b, wire.AppendVarfloat(nil, f)) {
+				c.Failf("fresh_process.EncodeVarfloat64", "EncodeVarfloat64(%v) = % x as one of the first calls of a process, reference % x", f, b, wire.AppendVarfloat(nil, f))
+				return
+			}
+			p := b
+			if g, err := enc.DecodeVarfloat64(&p); err != nil || (math.Float64bits(g) != math.Float64bits((f+1)-1) && g == g) || len(p) != 0 {
+				c.Failf("fresh_process.DecodeVarfloat64", "DecodeVarfloat64(% x) = %v, %v as one of the first calls of a process", b, g, err)
+				return
+			}
+		}
+	}
+	codecI := func() {
+		for _, v := range ints {
+			var b []byte
+			enc.EncodeVarint64(&b, v)
+			p := b
+			if g, err := enc.DecodeVarint64(&p); err != nil || g != v || !bytes.Equal(b, wire.AppendVarint(nil, v)) {
+				c.Failf("fresh_process.Varint64", "EncodeVarint64(%d) = % x, decoded %d, %v as one of the first calls of a process", v, b, g, err)
+				return
+			}
+		}
+	}
+	orders := [][]func(){
+		{sizesF, sizesI, sizesU, codecF, codecI},
+		{sizesI, sizesF, sizesU},
+		{sizesU, sizesF, sizesI},
+		{codecF, sizesF, sizesI, sizesU},
+		{codecI, sizesF, sizesU, sizesI},
+		{sizesF, codecF, sizesU},
+	}
+	c.Guard("fresh process probe", func() {
+		for _, f := range orders[c.Index%len(orders)] {
+			f()
+		}
+	})
+	c.Count("oracle.fresh_process_probes", 1)
+	c.Count("fresh_process.first_family_"+[]string{"Varfloat64Size", "Varint64Size", "Uvarint64Size", "Varfloat64 codec", "Varint64 codec", "Varfloat64Size"}[c.Index%len(orders)], 1)
+}
+
 func runC18(c *core.Ctx) {
 	r := c.R
+	if !c18ProcessStarted {
+		c18ProcessStarted = true
+		freshProcessProbe(c)
+		if c.Failed() {
+			return
+		}
+	}
 	if c.Index < 256 {
 		first := byte(c.Index)
 		n := 0
